@@ -246,6 +246,30 @@ def rule_lifetime_and_bracket(ctx):
             ctx.violation("C12.d", "transforms_merge", "merge", "helper table never dropped", "fakesnow/transforms_merge.py",
                           "MERGE leaves its helper table behind: `select * from merge_candidates` works afterwards and SHOW OBJECTS lists "
                           "MERGE_CANDIDATES; CREATE OR REPLACE also shadows a user table of that name")
+        # C12.i: every statement the MERGE explodes into passes the whole rewrite pipeline before it is executed (the clauses
+        # embed the user's own conditions and expressions, which need the same rewrites as anywhere else)
+        from ..pipeline import stages
+        want = {f"transforms.{s_.name}" for s_ in stages(prog) if s_.fn is not None}
+        seg, n_exec = set(), 0
+        for e in p.effects:
+            if e[0] != "enter":
+                continue
+            if e[1].endswith("._execute"):
+                n_exec += 1
+                missing = sorted(want - seg)
+                ok_i = not missing
+                ctx.ob("C12.i", f"exploded statement #{n_exec} passes every rewrite stage before _execute", ok_i, "fakesnow/cursor.py",
+                       f"{len(want) - len(missing)}/{len(want)} stages")
+                if not ok_i and n_exec <= 8:
+                    ctx.violation("C12.i", "cursor", "FakeSnowflakeCursor.execute", f"exploded MERGE statement skips {len(missing)} rewrite stages",
+                                  "fakesnow/cursor.py",
+                                  f"statement #{n_exec} of an exploded MERGE reaches _execute without the rewrite stages {missing[:4]}…: the "
+                                  f"user's ON / WHEN conditions and SET / VALUES expressions inside it are evaluated with raw DuckDB semantics "
+                                  f"(semi-structured access, Snowflake functions and types are not rewritten)")
+                seg = set()
+            elif e[1] in want:
+                seg.add(e[1])
+        ctx.floor("C12.i exploded statements executed", n_exec, 3)
         begins = [i for i, f in enumerate(flat) if f.startswith(("BEGIN", "TRANSACTION", "START"))]
         ends = [i for i, f in enumerate(flat) if f.startswith(("COMMIT", "ROLLBACK"))]
         bracket = bool(begins) and bool(ends) and begins[0] < ends[-1]
@@ -257,7 +281,10 @@ def rule_lifetime_and_bracket(ctx):
     ctx.floor("C12 execute paths", n, 1)
 
 
+from .c19 import rule_temporary_stays_private  # noqa: E402  (the helper is TEMPORARY in the template *and* at the engine)
+
 RULES = [
+    ("C12.d2", rule_temporary_stays_private, ("quick", "thorough")),
     ("C12.a", rule_keyword_compare, ("quick", "thorough")),
     ("C12.a2", rule_ident_compare, ("quick", "thorough")),
     ("C12.b", rule_ladders, ("quick", "thorough")),
